@@ -137,7 +137,13 @@ class UniqueItemsConstraint(Constraint):
         assert self.unique
 
     def validate(self, data: Any) -> bool:
-        return len(set(map(to_hashable, data))) == len(data)
+        try:
+            return len(set(map(to_hashable, data))) == len(data)
+        except TypeError:
+            # items which are not JSON data (unhashable, keys which cannot be sorted)
+            return not any(
+                data[i] == data[j] for i in range(len(data)) for j in range(i)
+            )
 
 
 @dataclass
